@@ -8,7 +8,8 @@
    4. for each of the 22 x 1000 (scale, group value) pairs the words of the round are compared with the
       words of the definition by kernel computation (the domain of a group IS finite), and the result
       is lifted to all numbers by induction over the list of groups;
-   5. both directions: the loop writes the defined text EXACTLY when english_ok holds.
+   5. the last word of an ordinal that ends in 0 takes its ordinal form by its ending (y -> ieth, + th); with that the
+      loop writes the defined text for EVERY integer, cardinal and ordinal (an error from 10^66 on, like the definition).
    Everything is parametric in the tables T; the finite checks are boolean functions of T, evaluated
    for the tables as they stand in the source (here) and for the regenerated ones (TableProofs.v). *)
 From C15 Require Import Model Spec TableCheck IntProofs WordProofs.
@@ -113,7 +114,7 @@ Definition gdelta (T : tables) (trip : text) (one teen : list text) (d d10 d100 
   let lo := match d10 with
             | 0 => if Nat.eqb d 0 then [] else [tnth one d]
             | 1 => [tnth teen d]
-            | _ => [tnth one d; tnth (t_ten T) (d10 - 2)]
+            | _ => (if Nat.eqb d 0 then [] else [tnth one d]) ++ [tnth (t_ten T) (d10 - 2)]
             end in
   let hi := if Nat.eqb d100 0 then [] else [hundred_w; tnth (t_one T) d100] in
   match lo ++ hi with
@@ -262,15 +263,21 @@ Proof.
   destruct (digits 10 n) as [|d l]; [contradiction|]. cbn [hd] in Hz. inversion Hb; subst.
   exists d, (map digit_char l). split; [reflexivity | lia].
 Qed.
-Definition english_of_loop (neg : bool) (r : option (list text)) : option text :=
+Definition english_of_loop (colon neg : bool) (digits : text) (r : option (list text)) : option text :=
   match r with
   | None => None
-  | Some words => Some (join [sp] (rev (if neg then words ++ [tx "negative"] else words)))
+  | Some words =>
+    match go_ordinal_first colon digits words with
+    | None => None
+    | Some words => Some (join [sp] (rev (if neg then words ++ [tx "negative"] else words)))
+    end
   end.
 Lemma go_english_digits : forall T (colon neg : bool) d rest, (1 <= d < 10)%N ->
   go_english T colon ((if neg then ["-"%char] else @nil ascii) ++ dc d :: rest) =
-  english_of_loop neg (go_card_loop T (t_triples T) (dc d :: rest) (Z.of_nat (List.length (dc d :: rest)) - 1) []
-                        (if colon then t_ordone T else t_one T) (if colon then t_ordteen T else t_teen T)).
+  if Nat.ltb (3 * List.length (t_triples T)) (List.length (dc d :: rest)) then None else
+  english_of_loop colon neg (dc d :: rest)
+    (go_card_loop T (t_triples T) (dc d :: rest) (Z.of_nat (List.length (dc d :: rest)) - 1) []
+                  (if colon then t_ordone T else t_one T) (if colon then t_ordteen T else t_teen T)).
 Proof.
   intros T colon neg d rest Hd.
   assert (Hin : In d (map N.of_nat (seq 1 9))).
@@ -278,12 +285,18 @@ Proof.
   cbn [seq map] in Hin.
   repeat (destruct Hin as [<- | Hin]; [destruct neg; reflexivity |]). destruct Hin.
 Qed.
-(* for every integer but 0: the text is the words of the groups, most significant first, after "negative" *)
+(* for every integer but 0: an error when there are more than three digits per scale word; otherwise the text is the words
+   of the groups, most significant first, after "negative", the last word made an ordinal by its ending when no ordinal
+   table was used *)
 Theorem go_english_words : forall T colon z, z <> 0%Z ->
   go_english T colon (dec_text z) =
-  Some (join [sp] ((if (z <? 0)%Z then [tx "negative"] else []) ++
-                   rev (GL T (t_triples T) (if colon then t_ordone T else t_one T) (if colon then t_ordteen T else t_teen T)
-                           (triples_of (Z.abs_N z))))).
+  if Nat.ltb (3 * List.length (t_triples T)) (List.length (digit_text 10 (Z.abs_N z))) then None else
+  match go_ordinal_first colon (digit_text 10 (Z.abs_N z))
+          (GL T (t_triples T) (if colon then t_ordone T else t_one T) (if colon then t_ordteen T else t_teen T)
+              (triples_of (Z.abs_N z))) with
+  | None => None
+  | Some words => Some (join [sp] ((if (z <? 0)%Z then [tx "negative"] else []) ++ rev words))
+  end.
 Proof.
   intros T colon z Hz. unfold dec_text, int_text.
   assert (Hn : (0 < Z.abs_N z)%N) by lia.
@@ -293,9 +306,81 @@ Proof.
   rewrite app_nil_r in L. fold (triples_of (Z.abs_N z)) in L. cbn [app] in L.
   destruct (z <? 0)%Z.
   - pose proof (go_english_digits T colon true d rest Hd) as G. cbn [app] in G.
-    rewrite E, G, <- E, L. unfold english_of_loop. rewrite rev_app_distr. reflexivity.
+    rewrite E, G, <- E, L. unfold english_of_loop. destruct (Nat.ltb (3 * List.length (t_triples T)) (List.length (digit_text 10 (Z.abs_N z)))); [reflexivity|].
+    destruct (go_ordinal_first _ _ _); [|reflexivity]. rewrite rev_app_distr. reflexivity.
   - pose proof (go_english_digits T colon false d rest Hd) as G. cbn [app] in G.
-    rewrite E, G, <- E, L. unfold english_of_loop. reflexivity.
+    rewrite E, G, <- E, L. unfold english_of_loop.
+    destruct (Nat.ltb (3 * List.length (t_triples T)) (List.length (digit_text 10 (Z.abs_N z)))); [reflexivity|].
+    destruct (go_ordinal_first _ _ _); reflexivity.
+Qed.
+
+(* the test of dirR on the last two digits, in terms of the number: it ends in 0 and not in 10 *)
+Definition ordz (n : N) : bool := (n mod 10 =? 0)%N && negb (n / 10 mod 10 =? 1)%N.
+Lemma dc_is : forall d, (d < 10)%N -> ascii_eqb (dc d) "0" = (d =? 0)%N /\ ascii_eqb (dc d) "1" = (d =? 1)%N.
+Proof.
+  intros d H.
+  assert (Hin : In d (map N.of_nat (seq 0 10))).
+  { apply in_map_iff. exists (N.to_nat d). split; [lia | apply in_seq; lia]. }
+  cbn [seq map] in Hin. repeat (destruct Hin as [<- | Hin]; [split; vm_compute; reflexivity |]). destruct Hin.
+Qed.
+Lemma go_ordinal_first_num : forall colon n W, (0 < n)%N ->
+  go_ordinal_first colon (digit_text 10 n) W =
+  if colon && ordz n then match W with [] => None | w :: ws => Some (go_ordinal_suffix w :: ws) end else Some W.
+Proof.
+  intros colon n W Hn. unfold go_ordinal_first, ordz.
+  destruct (N.ltb n 10) eqn:E; [apply N.ltb_lt in E | apply N.ltb_ge in E].
+  - rewrite digit_text_small by exact E. cbn [List.length Nat.sub]. change (ch_at [dc n] 0) with (dc n).
+    rewrite (proj1 (dc_is n E)). rewrite N.mod_small by exact E.
+    replace (n =? 0)%N with false by (symmetry; apply N.eqb_neq; lia). cbn [andb]. rewrite andb_false_r. reflexivity.
+  - rewrite digit_text_step by exact E.
+    assert (Hq : (0 < n / 10)%N) by (apply N.div_str_pos; lia).
+    assert (E2 : exists P, digit_text 10 (n / 10) = P ++ [dc (n / 10 mod 10)]).
+    { destruct (N.ltb (n / 10) 10) eqn:E3; [apply N.ltb_lt in E3 | apply N.ltb_ge in E3].
+      - exists []. rewrite digit_text_small by exact E3. rewrite N.mod_small by exact E3. reflexivity.
+      - exists (digit_text 10 (n / 10 / 10)). apply digit_text_step. exact E3. }
+    destruct E2 as [P EP]. rewrite EP. rewrite <- app_assoc. cbn [app].
+    rewrite app_length. cbn [List.length].
+    replace (List.length P + 2 - 1) with (List.length (P ++ [dc (n / 10 mod 10)])) by (rewrite app_length; cbn [List.length]; lia).
+    replace (P ++ [dc (n / 10 mod 10); dc (n mod 10)]) with ((P ++ [dc (n / 10 mod 10)]) ++ dc (n mod 10) :: []) by (rewrite <- app_assoc; reflexivity).
+    rewrite ch_at_app.
+    replace (List.length (P ++ [dc (n / 10 mod 10)]) - 1) with (List.length P) by (rewrite app_length; cbn [List.length]; lia).
+    rewrite <- app_assoc. cbn [app]. rewrite ch_at_app.
+    rewrite (proj1 (dc_is (n mod 10) ltac:(apply N.mod_lt; lia))), (proj2 (dc_is (n / 10 mod 10) ltac:(apply N.mod_lt; lia))).
+    replace (Nat.eqb (List.length (P ++ [dc (n / 10 mod 10)])) 0) with false by (symmetry; apply Nat.eqb_neq; rewrite app_length; cbn [List.length]; lia).
+    destruct colon, (n mod 10 =? 0)%N, (n / 10 mod 10 =? 1)%N; reflexivity.
+Qed.
+
+(* the length of the decimal text: k digits exactly from 10^(k-1) to 10^k - 1 *)
+Lemma digit_text_length_ge : forall k n, (10 ^ N.of_nat k <= n)%N -> k + 1 <= List.length (digit_text 10 n).
+Proof.
+  induction k as [|k IH]; intros n H.
+  - pose proof (digit_text_nonempty 10 n) as Hne. destruct (digit_text 10 n); [contradiction | cbn; lia].
+  - rewrite Nat2N.inj_succ, N.pow_succ_r' in H.
+    assert (1 <= 10 ^ N.of_nat k)%N by (apply N.lt_pred_le; apply N.neq_0_lt_0; apply N.pow_nonzero; lia).
+    rewrite digit_text_step by lia. rewrite app_length. cbn [List.length].
+    assert (10 ^ N.of_nat k <= n / 10)%N by (apply N.div_le_lower_bound; lia).
+    specialize (IH (n / 10)%N H1). lia.
+Qed.
+Lemma digit_text_length_le : forall k n, (n < 10 ^ N.of_nat (S k))%N -> List.length (digit_text 10 n) <= S k.
+Proof.
+  induction k as [|k IH]; intros n H.
+  - rewrite digit_text_small by exact H. cbn. lia.
+  - destruct (N.ltb n 10) eqn:E; [apply N.ltb_lt in E | apply N.ltb_ge in E].
+    + rewrite digit_text_small by exact E. cbn. lia.
+    + rewrite digit_text_step by exact E. rewrite app_length. cbn [List.length].
+      rewrite Nat2N.inj_succ, N.pow_succ_r' in H.
+      assert (n / 10 < 10 ^ N.of_nat (S k))%N by (apply N.div_lt_upper_bound; lia).
+      specialize (IH (n / 10)%N H0). lia.
+Qed.
+Lemma ten66_pow : ten66 = (10 ^ N.of_nat 66)%N.
+Proof. vm_compute. reflexivity. Qed.
+(* "number too large": with 22 scale words, exactly from 10^66 on *)
+Lemma too_large : forall T n, List.length (t_triples T) = 22 ->
+  Nat.ltb (3 * List.length (t_triples T)) (List.length (digit_text 10 n)) = (ten66 <=? n)%N.
+Proof.
+  intros T n HL. rewrite HL. destruct (ten66 <=? n)%N eqn:E.
+  - apply N.leb_le in E. rewrite ten66_pow in E. pose proof (digit_text_length_ge 66 n E). apply Nat.ltb_lt. lia.
+  - apply N.leb_gt in E. rewrite ten66_pow in E. pose proof (digit_text_length_le 65 n E). apply Nat.ltb_ge. lia.
 Qed.
 
 (* ---- 4. against the definition: group by group --------------------------------------------------------- *)
@@ -326,100 +411,119 @@ Proof.
   rewrite (IH (S k) false) by lia. reflexivity.
 Qed.
 
-(* the condition on one group: no tens digit 2..9 with a units digit 0; nothing in the group of 10^18 *)
-Definition tok (k : nat) (t : N) : bool :=
-  ((t mod 100 <? 20)%N || negb (t mod 10 =? 0)%N) && (negb (Nat.eqb k 6) || (t =? 0)%N).
-Fixpoint gok_list (k : nat) (ts : list N) : bool :=
-  match ts with [] => true | t :: ts' => tok k t && gok_list (S k) ts' end.
 (* the condition on the lowest group for ordinals: it ends in 01..19 or in a digit that is not 0 *)
 Definition ordt (t : N) : bool := ((1 <=? t mod 100)%N && (t mod 100 <? 20)%N) || negb (t mod 10 =? 0)%N.
 Definition ord_grp (t : N) : list text := removelast (triple_words t) ++ [ordinal_word (last (triple_words t) [])].
 
 (* the finite checks, functions of the tables: all 22 scales x 1000 group values *)
 Definition chkA (T : tables) : bool :=
-  forallb (fun k => forallb (fun j => implb (tok k (N.of_nat j)) (texts_eq (gw_rev T k false (N.of_nat j)) (spec_grp k (N.of_nat j))))
-                            (seq 0 1000)) (seq 0 22).
+  forallb (fun k => forallb (fun j => texts_eq (gw_rev T k false (N.of_nat j)) (spec_grp k (N.of_nat j))) (seq 0 1000)) (seq 0 22).
 Definition chkC (T : tables) : bool :=
-  forallb (fun j => implb (tok 0 (N.of_nat j) && ordt (N.of_nat j)) (texts_eq (gw_rev T 0 true (N.of_nat j)) (ord_grp (N.of_nat j))))
-          (seq 0 1000).
+  forallb (fun j => implb (ordt (N.of_nat j)) (texts_eq (gw_rev T 0 true (N.of_nat j)) (ord_grp (N.of_nat j)))) (seq 0 1000).
 Lemma texts_eq_eq : forall a b, texts_eq a b = true -> a = b.
 Proof.
   induction a as [|x a IH]; destruct b as [|y b]; cbn; intros H; try discriminate; [reflexivity|].
   apply andb_true_iff in H. destruct H as [H1 H2]. f_equal; [apply text_eqb_eq; exact H1 | apply IH; exact H2].
 Qed.
-Lemma chkA_fact : forall T, chkA T = true -> forall k t, k < 22 -> (t < 1000)%N -> tok k t = true ->
-  gw_rev T k false t = spec_grp k t.
+Lemma chkA_fact : forall T, chkA T = true -> forall k t, k < 22 -> (t < 1000)%N -> gw_rev T k false t = spec_grp k t.
 Proof.
-  intros T H k t Hk Ht Hok. unfold chkA in H. rewrite forallb_forall in H.
+  intros T H k t Hk Ht. unfold chkA in H. rewrite forallb_forall in H.
   specialize (H k ltac:(apply in_seq; lia)). rewrite forallb_forall in H.
-  specialize (H (N.to_nat t) ltac:(apply in_seq; lia)). rewrite N2Nat.id, Hok in H. apply texts_eq_eq. exact H.
+  specialize (H (N.to_nat t) ltac:(apply in_seq; lia)). rewrite N2Nat.id in H. apply texts_eq_eq. exact H.
 Qed.
-Lemma chkC_fact : forall T, chkC T = true -> forall t, (t < 1000)%N -> tok 0 t = true -> ordt t = true ->
-  gw_rev T 0 true t = ord_grp t.
+Lemma chkC_fact : forall T, chkC T = true -> forall t, (t < 1000)%N -> ordt t = true -> gw_rev T 0 true t = ord_grp t.
 Proof.
-  intros T H t Ht Hok Ho. unfold chkC in H. rewrite forallb_forall in H.
-  specialize (H (N.to_nat t) ltac:(apply in_seq; lia)). rewrite N2Nat.id, Hok, Ho in H. apply texts_eq_eq. exact H.
+  intros T H t Ht Ho. unfold chkC in H. rewrite forallb_forall in H.
+  specialize (H (N.to_nat t) ltac:(apply in_seq; lia)). rewrite N2Nat.id, Ho in H. apply texts_eq_eq. exact H.
 Qed.
 Lemma group_words_cons : forall k t ts, group_words k (t :: ts) = group_words (S k) ts ++ spec_grp k t.
 Proof. reflexivity. Qed.
+(* the cardinal words of the loop are the cardinal words of the definition, for every list of groups *)
 Lemma ggroup_card : forall T, chkA T = true -> forall ts k, k + List.length ts <= 22 ->
-  Forall (fun t => (t < 1000)%N) ts -> gok_list k ts = true -> ggroup T k false ts = group_words k ts.
+  Forall (fun t => (t < 1000)%N) ts -> ggroup T k false ts = group_words k ts.
 Proof.
-  intros T HA. induction ts as [|t ts IH]; intros k Hk Hts Hok; [reflexivity|].
-  inversion Hts as [|? ? Ht Hts']; subst. cbn [gok_list] in Hok. apply andb_true_iff in Hok. destruct Hok as [Hk1 Hk2].
+  intros T HA. induction ts as [|t ts IH]; intros k Hk Hts; [reflexivity|].
+  inversion Hts as [|? ? Ht Hts']; subst.
   cbn [List.length] in Hk. rewrite group_words_cons. cbn [ggroup].
   rewrite IH by (try assumption; lia). rewrite (chkA_fact T HA) by (try assumption; lia). reflexivity.
 Qed.
 
-(* ---- the static predicate of Proofs.v (the domain of the theorem) ----------------------------------------- *)
-(* where the loop of dirR, with the tables as they stand, writes the defined text: no group of three digits has a
-   tens digit 2..9 with a units digit 0, the group of 10^18 is zero (quantillion), the number is below 10^66; and for
-   ordinals the last two digits are 01..19 or the last digit is not 0 *)
-Fixpoint groups_ok (fuel : nat) (n : N) (k : nat) : bool :=
-  match fuel with
-  | O => true
-  | S f => if (n =? 0)%N then true
-           else let t := (n mod 1000)%N in
-                ((t mod 100 <? 20)%N || negb (t mod 10 =? 0)%N) && (negb (Nat.eqb k 6) || (t =? 0)%N) &&
-                groups_ok f (n / 1000)%N (S k)
-  end.
-Definition english_ok (ordinal : bool) (n : N) : bool :=
-  (n <? ten66)%N && groups_ok 30 n 0 &&
-  (negb ordinal || (n =? 0)%N || ((1 <=? n mod 100)%N && (n mod 100 <? 20)%N) || negb (n mod 10 =? 0)%N).
-
-Lemma groups_ok_list : forall f n k f2, (n < 1000 ^ N.of_nat f)%N -> (n < 2 ^ N.of_nat f2)%N ->
-  groups_ok f n k = gok_list k (triples_fuel f2 n).
+(* the finite check for ordinals of numbers that end in 0 (not 10): the ordinal tables are not used in the first round *)
+Definition chkD (T : tables) : bool :=
+  forallb (fun j => implb (negb (ordt (N.of_nat j)))
+                          (texts_eq (gw_rev T 0 true (N.of_nat j)) (gw_rev T 0 false (N.of_nat j)))) (seq 0 1000).
+Lemma chkD_fact : forall T, chkD T = true -> forall t, (t < 1000)%N -> ordt t = false ->
+  gw_rev T 0 true t = gw_rev T 0 false t.
 Proof.
-  induction f as [|f IH]; intros n k f2 H1 H2.
-  - cbn in H1. assert (n = 0%N) by lia. subst. rewrite triples_fuel_zero. reflexivity.
-  - cbn [groups_ok]. destruct (n =? 0)%N eqn:E.
-    + apply N.eqb_eq in E. subst. rewrite triples_fuel_zero. reflexivity.
-    + apply N.eqb_neq in E. destruct f2 as [|f2]. { cbn in H2. lia. }
-      cbn [triples_fuel]. replace (n =? 0)%N with false by (symmetry; apply N.eqb_neq; exact E).
-      cbn [gok_list]. unfold tok. f_equal. apply IH.
-      * rewrite Nat2N.inj_succ, N.pow_succ_r' in H1. apply N.div_lt_upper_bound; lia.
-      * rewrite Nat2N.inj_succ, N.pow_succ_r' in H2.
-        assert (n / 1000 <= n / 2)%N by (apply N.div_le_compat_l; lia).
-        assert (n / 2 < 2 ^ N.of_nat f2)%N by (apply N.div_lt_upper_bound; lia). lia.
+  intros T H t Ht Ho. unfold chkD in H. rewrite forallb_forall in H.
+  specialize (H (N.to_nat t) ltac:(apply in_seq; lia)). rewrite N2Nat.id, Ho in H. apply texts_eq_eq. exact H.
 Qed.
-Lemma ten66_le_30 : (ten66 <= 1000 ^ N.of_nat 30)%N.
-Proof. apply N.leb_le. vm_compute. reflexivity. Qed.
+(* ... and the last word of the definition is then a tens word, "hundred" or a scale word: the ending dirR gives it
+   (y -> ieth, otherwise + th) is its ordinal form. A fact about the definition alone, all 22 x 1000 groups. *)
+Definition sfx_ok (w : text) : bool := text_eqb (go_ordinal_suffix w) (ordinal_word w).
+Lemma last_word_suffix_all :
+  forallb (fun k => forallb (fun j => (N.of_nat j =? 0)%N || (Nat.eqb k 0 && ordt (N.of_nat j)) ||
+                                      sfx_ok (last (spec_grp k (N.of_nat j)) [])) (seq 0 1000)) (seq 0 22) = true.
+Proof. vm_compute. reflexivity. Qed.
+Lemma last_word_suffix : forall k t, k < 22 -> (t < 1000)%N -> t <> 0%N -> (k = 0 -> ordt t = false) ->
+  go_ordinal_suffix (last (spec_grp k t) []) = ordinal_word (last (spec_grp k t) []).
+Proof.
+  intros k t Hk Ht Hnz Ho. pose proof last_word_suffix_all as H. rewrite forallb_forall in H.
+  specialize (H k ltac:(apply in_seq; lia)). rewrite forallb_forall in H.
+  specialize (H (N.to_nat t) ltac:(apply in_seq; lia)). rewrite N2Nat.id in H.
+  replace (t =? 0)%N with false in H by (symmetry; apply N.eqb_neq; exact Hnz). cbn [orb] in H.
+  destruct (Nat.eqb k 0 && ordt t) eqn:E.
+  - apply andb_true_iff in E. destruct E as [E1 E2]. apply Nat.eqb_eq in E1. rewrite (Ho E1) in E2. discriminate.
+  - cbn [orb] in H. apply text_eqb_eq. exact H.
+Qed.
+Lemma spec_grp_nil : forall k t, spec_grp k t = [] -> (t < 1000)%N -> t = 0%N.
+Proof.
+  intros k t H Ht. unfold spec_grp in H. destruct (t =? 0)%N eqn:E; [apply N.eqb_eq; exact E|].
+  apply N.eqb_neq in E. apply app_eq_nil in H. destruct H as [H _].
+  destruct (triple_fact t ltac:(lia)) as [_ [_ Hne]]. contradiction.
+Qed.
+Lemma last_group_suffix : forall ts k, 1 <= k -> k + List.length ts <= 22 -> Forall (fun t => (t < 1000)%N) ts ->
+  group_words k ts <> [] ->
+  go_ordinal_suffix (last (group_words k ts) []) = ordinal_word (last (group_words k ts) []).
+Proof.
+  induction ts as [|t ts IH]; intros k Hk Hl Hts Hne; [contradiction|].
+  inversion Hts as [|? ? Ht Hts']; subst. cbn [List.length] in Hl. rewrite group_words_cons in *.
+  destruct (spec_grp k t) as [|w g] eqn:E.
+  - rewrite app_nil_r in *. apply IH; try assumption; lia.
+  - rewrite last_app_ne by discriminate. rewrite <- E. apply last_word_suffix; try assumption; try lia.
+    intros E0. subst t. unfold spec_grp in E. cbn in E. discriminate.
+Qed.
+
 (* what is known of the groups of a number 0 < n < 10^66 *)
 Lemma triples_facts : forall n, (0 < n < ten66)%N ->
   exists ts', triples_of n = (n mod 1000)%N :: ts' /\ List.length ts' <= 21 /\
-              Forall (fun t => (t < 1000)%N) (triples_of n) /\ groups_ok 30 n 0 = gok_list 0 (triples_of n).
+              Forall (fun t => (t < 1000)%N) (triples_of n).
 Proof.
   intros n Hn.
   destruct (triples_fuel_value _ n (fuel_enough' n)) as [_ Hb]. fold (triples_of n) in Hb.
   pose proof (triples_fuel_length (S (N.to_nat (N.log2 n))) n 22) as Hl.
   rewrite <- ten66_is in Hl. specialize (Hl ltac:(lia)). fold (triples_of n) in Hl.
-  pose proof (groups_ok_list 30 n 0 _ ltac:(pose proof ten66_le_30; lia) (fuel_enough' n)) as Hg. fold (triples_of n) in Hg.
   assert (E : triples_of n = (n mod 1000)%N :: triples_fuel (N.to_nat (N.log2 n)) (n / 1000)).
   { unfold triples_of. cbn [triples_fuel]. replace (n =? 0)%N with false by (symmetry; apply N.eqb_neq; lia). reflexivity. }
-  eexists. split; [exact E|]. split; [rewrite E in Hl; cbn [List.length] in Hl; lia|]. split; assumption.
+  eexists. split; [exact E|]. split; [rewrite E in Hl; cbn [List.length] in Hl; lia | assumption].
+Qed.
+Lemma ordt_ordz : forall n, ordt (n mod 1000) = negb (ordz n).
+Proof.
+  intros n. unfold ordt, ordz.
+  replace ((n mod 1000) mod 100)%N with (n mod 100)%N by lia. replace ((n mod 1000) mod 10)%N with (n mod 10)%N by lia.
+  destruct (n mod 10 =? 0)%N eqn:E1; destruct (n / 10 mod 10 =? 1)%N eqn:E2;
+    destruct (1 <=? n mod 100)%N eqn:E3; destruct (n mod 100 <? 20)%N eqn:E4; try reflexivity; exfalso;
+    repeat match goal with
+           | H : (_ =? _)%N = true |- _ => apply N.eqb_eq in H
+           | H : (_ =? _)%N = false |- _ => apply N.eqb_neq in H
+           | H : (_ <=? _)%N = true |- _ => apply N.leb_le in H
+           | H : (_ <=? _)%N = false |- _ => apply N.leb_gt in H
+           | H : (_ <? _)%N = true |- _ => apply N.ltb_lt in H
+           | H : (_ <? _)%N = false |- _ => apply N.ltb_ge in H
+           end; lia.
 Qed.
 
-(* ---- 5. the theorem: on english_ok the loop writes the defined text, for ALL integers ---------------------- *)
+(* ---- 5. the theorem: the loop writes the defined text, for ALL integers, cardinal and ordinal ------------------ *)
 Lemma GL_ggroup0 : forall T ts ord, List.length ts <= List.length (t_triples T) ->
   rev (GL T (t_triples T) (sel_one T ord) (sel_teen T ord) ts) = ggroup T 0 ord ts.
 Proof. intros T ts ord H. exact (GL_ggroup T ts 0 ord H). Qed.
@@ -434,255 +538,72 @@ Lemma dec_text_0 : dec_text 0 = ["0"%char].
 Proof. vm_compute. reflexivity. Qed.
 Lemma english_zero : forall T ordinal, go_english T ordinal (dec_text 0) = std_english ordinal 0.
 Proof. intros T ordinal. rewrite dec_text_0. destruct ordinal; vm_compute; reflexivity. Qed.
-
-Theorem english_loop_T : forall T, List.length (t_triples T) = 22 -> chkA T = true -> chkC T = true ->
-  forall ordinal z, english_ok ordinal (Z.abs_N z) = true -> go_english T ordinal (dec_text z) = std_english ordinal z.
+(* the words of a number that is not 0: there is one *)
+Lemma group_words_nonempty : forall z, z <> 0%Z -> (Z.abs_N z < ten66)%N -> group_words 0 (triples_of (Z.abs_N z)) <> [].
 Proof.
-  intros T HL HA HC ordinal z Hok.
+  intros z Hz Hlt E. pose proof (cardinal_words_pos z Hz Hlt) as Hc. rewrite E, app_nil_r in Hc.
+  destruct (cardinal_words_shape z _ Hc) as [Hne [_ Hlast]].
+  destruct (z <? 0)%Z; [|contradiction]. cbn [last] in Hlast. destruct Hlast as [H | H]; vm_compute in H; discriminate.
+Qed.
+
+Theorem english_loop_T : forall T, List.length (t_triples T) = 22 -> chkA T = true -> chkC T = true -> chkD T = true ->
+  forall ordinal z, go_english T ordinal (dec_text z) = std_english ordinal z.
+Proof.
+  intros T HL HA HC HD ordinal z.
   destruct (Z.eq_dec z 0) as [-> | Hz]. { apply english_zero. }
-  unfold english_ok in Hok. apply andb_true_iff in Hok. destruct Hok as [Hok Ho].
-  apply andb_true_iff in Hok. destruct Hok as [Hlt Hg]. apply N.ltb_lt in Hlt.
   set (n := Z.abs_N z) in *.
-  destruct (triples_facts n ltac:(lia)) as [ts' [E [Hl [Hb Hgl]]]].
-  rewrite Hgl in Hg. clear Hgl.
-  rewrite go_english_words by exact Hz. fold n.
+  rewrite go_english_words by exact Hz. fold n. rewrite (too_large T n HL).
+  destruct (ten66 <=? n)%N eqn:Hlt; [apply N.leb_le in Hlt | apply N.leb_gt in Hlt].
+  { rewrite english_domain by (subst n; lia). reflexivity. }
+  destruct (triples_facts n ltac:(lia)) as [ts' [E [Hl Hb]]].
+  rewrite go_ordinal_first_num by lia.
   change (if ordinal then t_ordone T else t_one T) with (sel_one T ordinal).
   change (if ordinal then t_ordteen T else t_teen T) with (sel_teen T ordinal).
-  rewrite GL_ggroup0 by (rewrite E, HL; cbn [List.length]; lia).
+  pose proof (GL_ggroup0 T (triples_of n) ordinal ltac:(rewrite E, HL; cbn [List.length]; lia)) as HG.
+  pose proof (group_words_nonempty z Hz Hlt) as Hgne. fold n in Hgne.
   unfold std_english, ordinal_words. rewrite (cardinal_words_pos z Hz Hlt). fold n.
-  destruct ordinal.
-  - (* ordinal: the lowest group is written with the ordinal tables *)
-    rewrite E in *. cbn [gok_list] in Hg. apply andb_true_iff in Hg. destruct Hg as [Hg0 Hg1].
-    inversion Hb as [|? ? Ht Hts']; subst.
-    assert (Hord : ordt (n mod 1000) = true).
-    { cbn [negb orb] in Ho. replace (n =? 0)%N with false in Ho by (symmetry; apply N.eqb_neq; lia). cbn [orb] in Ho.
-      unfold ordt. replace ((n mod 1000) mod 100)%N with (n mod 100)%N by lia.
-      replace ((n mod 1000) mod 10)%N with (n mod 10)%N by lia. exact Ho. }
-    assert (Hnz : (n mod 1000 <> 0)%N).
-    { intros E0. unfold ordt in Hord. rewrite E0 in Hord. discriminate. }
-    cbn [ggroup]. rewrite (ggroup_card T HA) by (try assumption; lia).
-    rewrite (chkC_fact T HC) by assumption.
-    rewrite group_words_cons. unfold spec_grp.
-    replace (n mod 1000 =? 0)%N with false by (symmetry; apply N.eqb_neq; exact Hnz). cbn [Nat.eqb]. rewrite app_nil_r.
-    destruct (triple_fact (n mod 1000) ltac:(lia)) as [_ [_ Hne]].
-    unfold ord_grp.
-    set (A := (if (z <? 0)%Z then [tx "negative"] else []) ++ group_words 1 ts').
-    replace ((if (z <? 0)%Z then [tx "negative"] else []) ++ group_words 1 ts' ++ triple_words (n mod 1000))
-      with (A ++ triple_words (n mod 1000)) by (subst A; rewrite <- app_assoc; reflexivity).
-    rewrite removelast_app by exact Hne. rewrite last_app_ne by exact Hne.
-    subst A. rewrite <- !app_assoc. reflexivity.
-  - rewrite (ggroup_card T HA) by (try assumption; rewrite E; cbn [List.length]; lia). reflexivity.
+  set (negw := if (z <? 0)%Z then [tx "negative"] else []).
+  rewrite E in *. inversion Hb as [|? ? Ht Hts']; subst.
+  destruct ordinal; cbn [andb].
+  - pose proof (ordt_ordz n) as Hoz. destruct (ordz n).
+    + (* it ends in 0 and not in 10: no ordinal table is used, the last word takes the ending *)
+      cbn [negb] in Hoz. cbn [ggroup] in HG. rewrite (chkD_fact T HD) in HG by assumption.
+      change (ggroup T 1 false ts' ++ gw_rev T 0 false (n mod 1000)) with (ggroup T 0 false ((n mod 1000)%N :: ts')) in HG.
+      rewrite (ggroup_card T HA) in HG by (try assumption; cbn [List.length]; lia).
+      set (G := group_words 0 ((n mod 1000)%N :: ts')) in *.
+      assert (HW : GL T (t_triples T) (sel_one T true) (sel_teen T true) ((n mod 1000)%N :: ts') =
+                   last G [] :: rev (removelast G)).
+      { rewrite <- (rev_involutive (GL _ _ _ _ _)), HG. rewrite (app_removelast_last [] Hgne) at 1.
+        rewrite rev_app_distr. reflexivity. }
+      rewrite HW. cbn [rev]. rewrite rev_involutive.
+      assert (Hs : go_ordinal_suffix (last G []) = ordinal_word (last G [])).
+      { subst G. rewrite group_words_cons in *. destruct (spec_grp 0 (n mod 1000)) as [|w g] eqn:E0.
+        - rewrite app_nil_r in *. apply last_group_suffix; try assumption; lia.
+        - rewrite last_app_ne by discriminate. rewrite <- E0. apply last_word_suffix; try assumption; try lia.
+          + intros E1. rewrite E1 in E0. cbn in E0. discriminate.
+          + intros _. exact Hoz. }
+      rewrite Hs. rewrite removelast_app by exact Hgne. rewrite last_app_ne by exact Hgne.
+      rewrite <- !app_assoc. reflexivity.
+    + (* the lowest group is written with the ordinal tables *)
+      cbn [negb] in Hoz. rename Hoz into Hord.
+      assert (Hnz : (n mod 1000 <> 0)%N).
+      { intros E0. unfold ordt in Hord. rewrite E0 in Hord. discriminate. }
+      rewrite HG. cbn [ggroup]. rewrite (ggroup_card T HA) by (try assumption; lia).
+      rewrite (chkC_fact T HC) by assumption.
+      rewrite group_words_cons. unfold spec_grp.
+      replace (n mod 1000 =? 0)%N with false by (symmetry; apply N.eqb_neq; exact Hnz). cbn [Nat.eqb]. rewrite app_nil_r.
+      destruct (triple_fact (n mod 1000) ltac:(lia)) as [_ [_ Hne]].
+      unfold ord_grp.
+      set (A := negw ++ group_words 1 ts').
+      replace (negw ++ group_words 1 ts' ++ triple_words (n mod 1000))
+        with (A ++ triple_words (n mod 1000)) by (subst A; rewrite <- app_assoc; reflexivity).
+      rewrite removelast_app by exact Hne. rewrite last_app_ne by exact Hne.
+      subst A. rewrite <- !app_assoc. reflexivity.
+  - rewrite HG. rewrite (ggroup_card T HA) by (try assumption; cbn [List.length]; lia). reflexivity.
 Qed.
 
 (* with the tables as they stand in the source *)
-Lemma src_checks : List.length (t_triples src_tables) = 22 /\ chkA src_tables = true /\ chkC src_tables = true.
-Proof. split; [reflexivity|]. split; vm_compute; reflexivity. Qed.
-Theorem english_loop : forall ordinal z, english_ok ordinal (Z.abs_N z) = true ->
-  go_english src_tables ordinal (dec_text z) = std_english ordinal z.
-Proof. destruct src_checks as [H1 [H2 H3]]. exact (english_loop_T src_tables H1 H2 H3). Qed.
-
-(* ---- 6. the converse: outside english_ok the loop writes something else ------------------------------------- *)
-(* the vocabulary of the definition: every word of std_english is one of these *)
-Definition vocab : list text := Eval vm_compute in
-  tx "zero" :: tx "negative" :: all_words ++ map ordinal_word (tx "zero" :: all_words).
-Lemma vocab_is : vocab = tx "zero" :: tx "negative" :: all_words ++ map ordinal_word (tx "zero" :: all_words).
-Proof. vm_compute. reflexivity. Qed.
-Definition inv (w : text) : bool := existsb (text_eqb w) vocab.
-Lemma inv_in : forall w, In w vocab -> inv w = true.
-Proof. intros w H. unfold inv. apply existsb_exists. exists w. split; [exact H | apply text_eqb_refl]. Qed.
-Lemma is_word_in : forall w, is_word w = true -> In w all_words.
-Proof. intros w H. unfold is_word in H. apply existsb_exists in H. destruct H as [x [Hx E]]. apply text_eqb_eq in E. subst. exact Hx. Qed.
-Lemma wordish_inv : forall w, wordish w = true -> inv w = true.
-Proof.
-  intros w Hw. apply inv_in. rewrite vocab_is. unfold wordish in *.
-  apply orb_true_iff in Hw. destruct Hw as [Hw | Hw]; [apply orb_true_iff in Hw; destruct Hw as [Hw | Hw]|].
-  - right. right. apply in_or_app. left. apply is_word_in. exact Hw.
-  - left. apply text_eqb_eq in Hw. auto.
-  - right. left. apply text_eqb_eq in Hw. auto.
-Qed.
-Lemma ordinal_inv : forall w, (w = tx "zero" \/ is_word w = true) -> inv (ordinal_word w) = true.
-Proof.
-  intros w Hw. apply inv_in. rewrite vocab_is. right. right. apply in_or_app. right. apply in_map.
-  destruct Hw as [-> | Hw]; [left; reflexivity | right; apply is_word_in; exact Hw].
-Qed.
-Lemma ordinal_differs_all : forallb (fun w => negb (text_eqb (ordinal_word w) w)) (tx "zero" :: all_words) = true.
-Proof. vm_compute. reflexivity. Qed.
-Lemma ordinal_differs : forall w, (w = tx "zero" \/ is_word w = true) -> ordinal_word w <> w.
-Proof.
-  intros w Hw E. pose proof ordinal_differs_all as H. rewrite forallb_forall in H.
-  specialize (H w ltac:(destruct Hw as [-> | Hw]; [left; reflexivity | right; apply is_word_in; exact Hw])).
-  rewrite E, text_eqb_refl in H. discriminate.
-Qed.
-Lemma forallb_existsb_neg : forall (f : text -> bool) l, forallb f l = true -> existsb (fun w => negb (f w)) l = true -> False.
-Proof.
-  intros f l H1 H2. apply existsb_exists in H2. destruct H2 as [x [Hx Hn]].
-  rewrite forallb_forall in H1. rewrite (H1 x Hx) in Hn. discriminate.
-Qed.
-(* the words of the definition, cardinal or ordinal, are in the vocabulary, have no blank, and there is one at least *)
-Lemma std_words_shape : forall (ordinal : bool) z ws, (if ordinal then ordinal_words z else cardinal_words z) = Some ws ->
-  ws <> [] /\ forallb inv ws = true /\ forallb no_space ws = true /\ hd [] ws <> [].
-Proof.
-  intros ordinal z ws H.
-  assert (G : forall cw, cardinal_words z = Some cw ->
-              cw <> [] /\ forallb inv cw = true /\ forallb no_space cw = true /\ hd [] cw <> []).
-  { intros cw Hc. destruct (cardinal_words_shape z cw Hc) as [Hne [Hw _]]. split; [exact Hne|].
-    rewrite forallb_forall in Hw. split; [|split].
-    - apply forallb_forall. intros x Hx. apply wordish_inv. apply Hw. exact Hx.
-    - apply forallb_forall. intros x Hx. apply (wordish_no_space x (Hw x Hx)).
-    - destruct cw as [|w cw]; [contradiction|]. cbn [hd]. intros E. specialize (Hw w (or_introl eq_refl)). subst w. discriminate. }
-  destruct ordinal; [|exact (G ws H)].
-  unfold ordinal_words in H. destruct (cardinal_words z) as [cw|] eqn:Hc; [|discriminate]. inversion H; subst ws. clear H.
-  destruct (G cw eq_refl) as [Hne [Hi [Hn Hh]]]. destruct (cardinal_words_shape z cw Hc) as [_ [Hw Hlast]].
-  assert (Hlw : wordish (last cw []) = true).
-  { rewrite forallb_forall in Hw. apply Hw. destruct cw as [|x l] using rev_ind; [contradiction|].
-    rewrite last_last. apply in_or_app. right. left. reflexivity. }
-  split; [destruct (removelast cw); discriminate|]. split; [|split].
-  - rewrite forallb_app, forallb_removelast by exact Hi. cbn [forallb]. rewrite (ordinal_inv _ Hlast). reflexivity.
-  - rewrite forallb_app, forallb_removelast by exact Hn. cbn [forallb].
-    rewrite (proj2 (wordish_no_space _ Hlw)). reflexivity.
-  - destruct cw as [|w cw]; [contradiction|]. destruct cw as [|w2 cw].
-    + cbn [removelast app hd last]. intros E. cbn [last] in Hlast.
-      assert (Hin : In w (tx "zero" :: all_words)) by (destruct Hlast as [-> | Hl]; [left; reflexivity | right; apply is_word_in; exact Hl]).
-      assert (Hall : forallb (fun w => negb (text_eqb (ordinal_word w) [])) (tx "zero" :: all_words) = true) by (vm_compute; reflexivity).
-      rewrite forallb_forall in Hall. specialize (Hall w Hin). rewrite E in Hall. discriminate.
-    + cbn [removelast app hd]. cbn [hd] in Hh. exact Hh.
-Qed.
-Lemma join_inj : forall a b, a <> [] -> b <> [] -> forallb no_space a = true -> forallb no_space b = true ->
-  join [sp] a = join [sp] b -> a = b.
-Proof.
-  intros a b Ha Hb Hna Hnb E.
-  destruct a as [|w ws]; [contradiction|]. destruct b as [|v vs]; [contradiction|].
-  cbn [forallb] in Hna, Hnb. apply andb_true_iff in Hna. apply andb_true_iff in Hnb.
-  destruct Hna as [H1 H2]. destruct Hnb as [H3 H4].
-  pose proof (split_join ws w [] H1 H2) as S1. pose proof (split_join vs v [] H3 H4) as S2.
-  rewrite E in S1. rewrite S1 in S2. cbn [rev app] in S2. exact S2.
-Qed.
-
-(* three more finite checks over the tables: the words of the loop have no blank; a group outside `tok` has a word that
-   is not in the vocabulary of the definition (the empty word, "quantillion"); where the ordinal condition fails on a group
-   inside `tok` (it ends in 00) the ordinal tables are not used *)
-Definition chkN (T : tables) : bool :=
-  forallb (fun k => forallb (fun j => forallb no_space (gw_rev T k false (N.of_nat j)) && forallb no_space (gw_rev T k true (N.of_nat j)))
-                            (seq 0 1000)) (seq 0 22).
-Definition badw (T : tables) (w : text) : bool := text_eqb w [] || text_eqb w (tnth (t_triples T) 6).
-Definition chkB (T : tables) : bool :=
-  negb (inv []) && negb (inv (tnth (t_triples T) 6)) &&
-  forallb (fun k => forallb (fun j => if tok k (N.of_nat j) then true
-                                      else existsb (badw T) (gw_rev T k false (N.of_nat j)) &&
-                                           existsb (badw T) (gw_rev T k true (N.of_nat j)))
-                            (seq 0 1000)) (seq 0 22).
-Definition chkD (T : tables) : bool :=
-  forallb (fun j => implb (tok 0 (N.of_nat j) && negb (ordt (N.of_nat j)))
-                          (texts_eq (gw_rev T 0 true (N.of_nat j)) (gw_rev T 0 false (N.of_nat j)))) (seq 0 1000).
-Lemma chkN_fact : forall T, chkN T = true -> forall k t ord, k < 22 -> (t < 1000)%N -> forallb no_space (gw_rev T k ord t) = true.
-Proof.
-  intros T H k t ord Hk Ht. unfold chkN in H. rewrite forallb_forall in H.
-  specialize (H k ltac:(apply in_seq; lia)). rewrite forallb_forall in H.
-  specialize (H (N.to_nat t) ltac:(apply in_seq; lia)). rewrite N2Nat.id in H.
-  apply andb_true_iff in H. destruct H. destruct ord; assumption.
-Qed.
-Lemma chkB_fact : forall T, chkB T = true -> forall k t ord, k < 22 -> (t < 1000)%N -> tok k t = false ->
-  existsb (fun w => negb (inv w)) (gw_rev T k ord t) = true.
-Proof.
-  intros T H k t ord Hk Ht Hok. unfold chkB in H.
-  apply andb_true_iff in H. destruct H as [H0 H]. apply andb_true_iff in H0. destruct H0 as [H0 H6].
-  rewrite forallb_forall in H.
-  specialize (H k ltac:(apply in_seq; lia)). rewrite forallb_forall in H.
-  specialize (H (N.to_nat t) ltac:(apply in_seq; lia)). rewrite N2Nat.id, Hok in H.
-  apply andb_true_iff in H.
-  assert (G : existsb (badw T) (gw_rev T k ord t) = true) by (destruct H; destruct ord; assumption).
-  apply existsb_exists in G. destruct G as [w [Hw Hb]]. apply existsb_exists. exists w. split; [exact Hw|].
-  unfold badw in Hb. apply orb_true_iff in Hb. destruct Hb as [Hb | Hb]; apply text_eqb_eq in Hb; subst w; assumption.
-Qed.
-Lemma chkD_fact : forall T, chkD T = true -> forall t, (t < 1000)%N -> tok 0 t = true -> ordt t = false ->
-  gw_rev T 0 true t = gw_rev T 0 false t.
-Proof.
-  intros T H t Ht Hok Ho. unfold chkD in H. rewrite forallb_forall in H.
-  specialize (H (N.to_nat t) ltac:(apply in_seq; lia)). rewrite N2Nat.id, Hok, Ho in H. apply texts_eq_eq. exact H.
-Qed.
-Lemma ggroup_no_space : forall T, chkN T = true -> forall ts k ord, k + List.length ts <= 22 ->
-  Forall (fun t => (t < 1000)%N) ts -> forallb no_space (ggroup T k ord ts) = true.
-Proof.
-  intros T HN. induction ts as [|t ts IH]; intros k ord Hk Hts; [reflexivity|].
-  inversion Hts as [|? ? Ht Hts']; subst. cbn [List.length] in Hk. cbn [ggroup].
-  rewrite forallb_app, IH by (try assumption; lia). rewrite (chkN_fact T HN) by (try assumption; lia). reflexivity.
-Qed.
-Lemma ggroup_bad : forall T, chkB T = true -> forall ts k ord, k + List.length ts <= 22 ->
-  Forall (fun t => (t < 1000)%N) ts -> gok_list k ts = false -> existsb (fun w => negb (inv w)) (ggroup T k ord ts) = true.
-Proof.
-  intros T HB. induction ts as [|t ts IH]; intros k ord Hk Hts Hok; [discriminate|].
-  inversion Hts as [|? ? Ht Hts']; subst. cbn [List.length] in Hk. cbn [ggroup gok_list] in *.
-  rewrite existsb_app. destruct (tok k t) eqn:Et.
-  - cbn [andb] in Hok. rewrite IH by (try assumption; lia). reflexivity.
-  - rewrite (chkB_fact T HB) by (try assumption; lia). apply orb_true_r.
-Qed.
-
-Theorem english_loop_converse_T : forall T, List.length (t_triples T) = 22 ->
-  chkA T = true -> chkN T = true -> chkB T = true -> chkD T = true ->
-  forall ordinal z, english_ok ordinal (Z.abs_N z) = false -> go_english T ordinal (dec_text z) <> std_english ordinal z.
-Proof.
-  intros T HL HA HN HB HD ordinal z Hok Heq.
-  destruct (Z.eq_dec z 0) as [-> | Hz]. { destruct ordinal; vm_compute in Hok; discriminate. }
-  unfold english_ok in Hok. set (n := Z.abs_N z) in *.
-  rewrite go_english_words in Heq by exact Hz. fold n in Heq.
-  destruct (n <? ten66)%N eqn:Hlt; [apply N.ltb_lt in Hlt | apply N.ltb_ge in Hlt].
-  2:{ (* beyond the scale words the definition has no text, the loop has one *)
-      rewrite english_domain in Heq by (subst n; lia). discriminate. }
-  destruct (triples_facts n ltac:(lia)) as [ts' [E [Hl [Hb Hgl]]]].
-  rewrite Hgl in Hok. clear Hgl. cbn [andb] in Hok.
-  pose proof (cardinal_words_pos z Hz Hlt) as Hc. fold n in Hc.
-  change (if ordinal then t_ordone T else t_one T) with (sel_one T ordinal) in Heq.
-  change (if ordinal then t_ordteen T else t_teen T) with (sel_teen T ordinal) in Heq.
-  rewrite GL_ggroup0 in Heq by (rewrite E, HL; cbn [List.length]; lia).
-  unfold std_english in Heq.
-  destruct (if ordinal then ordinal_words z else cardinal_words z) as [ws|] eqn:Hws; [|discriminate].
-  destruct (std_words_shape ordinal z ws Hws) as [Hne [Hinv [Hns _]]].
-  apply (f_equal (fun o : option text => match o with Some t => t | None => [] end)) in Heq. cbv beta iota in Heq.
-  set (negw := if (z <? 0)%Z then [tx "negative"] else []) in *.
-  assert (Hnsg : forallb no_space (negw ++ ggroup T 0 ordinal (triples_of n)) = true).
-  { rewrite forallb_app. rewrite (ggroup_no_space T HN) by (try assumption; rewrite E; cbn [List.length]; lia).
-    subst negw. destruct (z <? 0)%Z; reflexivity. }
-  destruct (gok_list 0 (triples_of n)) eqn:Hg.
-  - (* every group is inside tok: it is the ordinal of a number that ends in 00 *)
-    cbn [andb] in Hok. destruct ordinal; [|discriminate]. cbn [negb orb] in Hok.
-    replace (n =? 0)%N with false in Hok by (symmetry; apply N.eqb_neq; lia). cbn [orb] in Hok.
-    rewrite E in *. cbn [gok_list] in Hg. apply andb_true_iff in Hg. destruct Hg as [Hg0 Hg1].
-    inversion Hb as [|? ? Ht Hts']; subst.
-    assert (Hord : ordt (n mod 1000) = false).
-    { unfold ordt. replace ((n mod 1000) mod 100)%N with (n mod 100)%N by lia.
-      replace ((n mod 1000) mod 10)%N with (n mod 10)%N by lia. exact Hok. }
-    cbn [ggroup] in Heq, Hnsg. rewrite (chkD_fact T HD) in Heq, Hnsg by assumption.
-    change (ggroup T 1 false ts' ++ gw_rev T 0 false (n mod 1000)) with (ggroup T 0 false ((n mod 1000)%N :: ts')) in Heq, Hnsg.
-    rewrite (ggroup_card T HA) in Heq, Hnsg by (try assumption; cbn [gok_list List.length]; try lia; rewrite Hg0, Hg1; reflexivity).
-    remember (negw ++ group_words 0 ((n mod 1000)%N :: ts')) as cw eqn:Ecw.
-    unfold ordinal_words in Hws. rewrite Hc in Hws. injection Hws as Hws.
-    destruct (cardinal_words_shape z cw Hc) as [Hcne [_ Hlast]].
-    apply join_inj in Heq; try assumption.
-    rewrite <- Hws in Heq. apply (f_equal (fun l => last l [])) in Heq. cbv beta in Heq. rewrite last_last in Heq.
-    exact (ordinal_differs _ Hlast (eq_sym Heq)).
-  - (* some group is outside tok: the loop writes a word the definition never writes *)
-    pose proof (ggroup_bad T HB (triples_of n) 0 ordinal ltac:(rewrite E; cbn [List.length]; lia) Hb Hg) as Hbad.
-    assert (Hbad' : existsb (fun w => negb (inv w)) (negw ++ ggroup T 0 ordinal (triples_of n)) = true).
-    { rewrite existsb_app, Hbad. apply orb_true_r. }
-    apply join_inj in Heq; try assumption.
-    + rewrite Heq in Hbad'. exact (forallb_existsb_neg inv ws Hinv Hbad').
-    + intros E0. rewrite E0 in Hbad'. discriminate.
-Qed.
-
-(* with the tables as they stand in the source: both directions *)
-Lemma src_checks_converse : chkN src_tables = true /\ chkB src_tables = true /\ chkD src_tables = true.
-Proof. split; [|split]; vm_compute; reflexivity. Qed.
-Theorem english_loop_converse : forall ordinal z, english_ok ordinal (Z.abs_N z) = false ->
-  go_english src_tables ordinal (dec_text z) <> std_english ordinal z.
-Proof.
-  destruct src_checks as [H1 [H2 _]]. destruct src_checks_converse as [H3 [H4 H5]].
-  exact (english_loop_converse_T src_tables H1 H2 H3 H4 H5).
-Qed.
-Theorem english_loop_exact : forall ordinal z,
-  go_english src_tables ordinal (dec_text z) = std_english ordinal z <-> english_ok ordinal (Z.abs_N z) = true.
-Proof.
-  intros ordinal z. split.
-  - intros H. destruct (english_ok ordinal (Z.abs_N z)) eqn:E; [reflexivity|].
-    exfalso. exact (english_loop_converse ordinal z E H).
-  - apply english_loop.
-Qed.
+Lemma src_checks : List.length (t_triples src_tables) = 22 /\ chkA src_tables = true /\ chkC src_tables = true /\ chkD src_tables = true.
+Proof. split; [reflexivity|]. split; [|split]; vm_compute; reflexivity. Qed.
+Theorem english_loop : forall ordinal z, go_english src_tables ordinal (dec_text z) = std_english ordinal z.
+Proof. destruct src_checks as [H1 [H2 [H3 H4]]]. exact (english_loop_T src_tables H1 H2 H3 H4). Qed.
